@@ -89,7 +89,7 @@ fn genuine_answer() -> Vec<u8> {
 }
 
 fn serve(mut tcp: std::net::TcpStream, c: Case, seen: Arc<Mutex<Seen>>) {
-    let _ = tcp.set_read_timeout(Some(Duration::from_secs(8)));
+    let _ = tcp.set_read_timeout(Some(Duration::from_secs(12)));
     if !c.ldaps {
         // read exactly one LDAP request in cleartext
         let mut all = vec![];
@@ -248,7 +248,7 @@ fn attempt(c: &Case, port: u16) -> Result<Result<Option<u32>, String>, String> {
     let scheme = if c.ldaps { "ldaps" } else { "ldap" };
     let url = if c.host.is_empty() { format!("{}:///", scheme) } else { format!("{}://{}:{}", scheme, c.host, port) };
     let (starttls, no_verify, cloned, connector) = (!c.ldaps || c.both, c.no_verify, c.cloned, c.connector);
-    let ct = if c.no_timeout { None } else { Some(Duration::from_millis(4000)) };
+    let ct = if c.no_timeout { None } else { Some(Duration::from_millis(6000)) };
     let toggled = c.toggled;
     catch(move || {
         let rt = tokio::runtime::Builder::new_current_thread().enable_all().build().unwrap();
@@ -273,7 +273,7 @@ fn attempt(c: &Case, port: u16) -> Result<Result<Option<u32>, String>, String> {
                     tokio::spawn(async move {
                         let _ = conn.drive().await;
                     });
-                    match ldap.with_timeout(Duration::from_millis(4000)).simple_bind("cn=after", "secret").await {
+                    match ldap.with_timeout(Duration::from_millis(6000)).simple_bind("cn=after", "secret").await {
                         Ok(r) => Ok(Some(r.rc)),
                         Err(_) => Ok(None),
                     }
@@ -313,7 +313,7 @@ fn judge(rep: &Reporter, c: &Case) -> bool {
     });
     let c3 = c.clone();
     let replay = json!({"engine":"c17","case":format!("{:?}", c)});
-    let out = with_deadline(Duration::from_secs(20), move || attempt(&c3, port));
+    let out = with_deadline(Duration::from_secs(30), move || attempt(&c3, port));
     let _ = with_deadline(Duration::from_secs(8), move || {
         let _ = srv.join();
     });
@@ -321,7 +321,7 @@ fn judge(rep: &Reporter, c: &Case) -> bool {
     let out = match out {
         Some(o) => o,
         None => {
-            rep.violation("tls:setup-hangs", &format!("{:?}: establishment did not return within 20 s", c), replay);
+            rep.violation("tls:setup-hangs", &format!("{:?}: establishment did not return within 30 s", c), replay);
             return true;
         }
     };
